@@ -69,6 +69,7 @@ fn dispatch(id: &str, tier: Tier, seed: u64, replay: Option<PathBuf>) -> i32 {
         "C12" => run_prop(c12::C12, tier, seed, replay),
         "C13" => run_prop(c13::C13, tier, seed, replay),
         "C14" => run_prop(c14::C14, tier, seed, replay),
+        "C15" => run_prop(c15::C15, tier, seed, replay),
         "C16" => run_prop(c16::C16, tier, seed, replay),
         "C18" => run_prop(c18::C18, tier, seed, replay),
         "C19" => run_prop(c19::C19, tier, seed, replay),
